@@ -67,6 +67,60 @@ def split_hook(ip, s, sep, maxsplit):
     raise ops.Unsupported('split')
 
 
+def re_split_hook(ip, fn, args, kwargs):
+    """re.split(pattern, s) for a pattern that is one literal separator or a character class of literal separators"""
+    if len(args) != 2 or kwargs or not isinstance(args[0], str) or not isinstance(args[1], Sym):
+        raise ops.Unsupported('re.split beyond (literal separator class, string)')
+    pat = args[0]
+    body = pat[1:-1] if pat.startswith('[') and pat.endswith(']') and len(pat) > 2 else pat
+    seps, i = set(), 0
+    while i < len(body):
+        ch = body[i]
+        if ch == '\\':
+            if i + 1 >= len(body):
+                raise ops.Unsupported('re.split pattern %r' % pat)
+            ch = body[i + 1]
+            i += 1
+        elif ch in '^-.*+?()|{}$' or (body is pat and len(body) > 1 and ch not in '\\'):
+            raise ops.Unsupported('re.split pattern %r' % pat)
+        seps.add(ch)
+        i += 1
+    if body is pat and len(seps) != 1:
+        raise ops.Unsupported('re.split pattern %r' % pat)
+    used(ip, 're.split(class of literal separators, s): the components between the separators (regular-expression membership)')
+    if seps == {'/'}:
+        return Parts(args[1].t)
+    return PartsOf(args[1].t, sorted(seps))
+
+
+class PartsOf(Parts):
+    """components of s between ANY of several literal separators"""
+    def __init__(self, s, seps):
+        self.s = s
+        self.seps = seps
+
+    def pv_getitem(self, ip, k):
+        raise ops.Unsupported('selection from multi-separator parts')
+
+    def pv_contains(self, ip, item):
+        if isinstance(item, str) and not any(c in item for c in self.seps):
+            sep = z3.Union(*[z3.Re(c) for c in self.seps]) if len(self.seps) > 1 else z3.Re(self.seps[0])
+            r = z3.Concat(z3.Option(z3.Concat(re_any(), sep)), z3.Re(item), z3.Option(z3.Concat(sep, re_any())))
+            return ops.sbool(z3.InRe(self.s, r))
+        raise ops.Unsupported('membership of a non-constant in the split parts')
+
+
+def commonprefix_hook(ip, fn, args, kwargs):
+    """os.path.commonprefix([a, b]): the longest common CHARACTER prefix (not a path-component prefix)"""
+    if len(args) != 1 or not isinstance(args[0], PyList) or len(args[0].items) != 2:
+        raise ops.Unsupported('os.path.commonprefix of anything but a list of two strings')
+    a, b = [ops.term(x) for x in args[0].items]
+    used(ip, 'os.path.commonprefix([a, b]): a common character prefix of both; equal to a exactly when a is a prefix of b')
+    r = ip.ctx.fresh('commonprefix', Str)
+    ip.ctx.assume(z3.And(z3.PrefixOf(r, a), z3.PrefixOf(r, b), (r == a) == z3.PrefixOf(a, b), (r == b) == z3.PrefixOf(b, a)))
+    return Sym(r, 'str')
+
+
 def replace_hook(ip, s, a, b):
     if isinstance(s, Sym) and a == '\\' and b == '/':
         used(ip, 'str.replace("\\\\","/"): no backslash in the result; identity when there was none')
@@ -149,8 +203,47 @@ def root_after_replace(root_directory, ghost):
     return root_directory
 
 
+def replay_paths(label, model):
+    """the counter-model's abspath is uninterpreted, so its strings need not fail natively: try the model's strings and the
+    property's adversarial segment alphabet (both separators, dot segments, absolute names, siblings that share the root's
+    characters) against the real function"""
+    m = model or {}
+    return '''
+import sys, os, itertools
+from mpgameserver.http_server import path_join_safe
+roots = ["/srv/www/static", "/srv/www/static/", "/r"] + [%r]
+segs = ["", ".", "..", "a", "b.txt", "..a", "a..", "..."]
+names = set([%r])
+for n in (1, 2, 3):
+    for combo in itertools.product(segs, repeat=n):
+        for sep in ("/", "\\\\"):
+            names.add(sep.join(combo))
+            names.add("/" + sep.join(combo))
+bad = []
+for root in roots:
+    if not isinstance(root, str) or not root.startswith("/"): continue
+    R = os.path.abspath(root)
+    extra = [R + "-backup/secret.key", R + "2/x", R + ".old", "/" + R + "-backup/x", "/etc/passwd", "//etc/passwd"]
+    for name in list(names) + extra:
+        if not isinstance(name, str): continue
+        try:
+            p = path_join_safe(root, name)
+        except ValueError:
+            continue
+        except Exception as e:
+            bad.append("root %%r name %%r: %%r" %% (root, name, e)); continue
+        if not (p == R or p.startswith(R.rstrip("/") + "/")):
+            bad.append("root %%r name %%r -> %%r is outside the root" %% (root, name, p))
+for b in bad[:8]: print(b)
+print("%%d names escape the root" %% len(bad))
+sys.exit(1 if bad else 0)
+''' % (m.get('root_directory', '/r'), m.get('filename', 'a'))
+
+
 @contract('http_server.path_join_safe', props=['C17'])
 class _:
+    replay = replay_paths
+
     def setup(E):
         root = E.str('root_directory')
         # the root comes from a trusted source: an absolute directory in normal form (so that abspath(root) = root)
@@ -160,7 +253,8 @@ class _:
         E.assume(ABSPATH(rt) == rt)          # instance of (ii) at the root
         E.ghost('replaced', [])
         return dict(root_directory=root, filename=E.str('filename'))
-    hooks = {'str.split': split_hook, 'str.replace': replace_hook, 'opaque:os.path.join': join_hook, 'opaque:os.path.abspath': abspath_hook}
+    hooks = {'str.split': split_hook, 'str.replace': replace_hook, 'opaque:os.path.join': join_hook, 'opaque:os.path.abspath': abspath_hook,
+             'opaque:re.split': re_split_hook, 'opaque:os.path.commonprefix': commonprefix_hook}
     may_raise = ['ValueError']
     ensures = {
         # from the statement: the result is the root directory or lies beneath it
